@@ -13,6 +13,31 @@ def sh(cmd, cwd=None, env=None, timeout=3600):
     return subprocess.run(cmd, cwd=cwd, env=env, stdout=subprocess.PIPE, stderr=subprocess.STDOUT, text=True, timeout=timeout)
 
 
+def write_md(allr):
+    by = {m['id']: m for m in MUT}
+    lines = ['# Sensitivity: hand-written mutants', '',
+             'Each mutant is one small source edit of process-compose (mutants.json) applied to a scratch worktree;',
+             'the quick tier of the listed check is run against it with VERIF_REPO. `suite` is the repository\'s own',
+             'test suite on the mutant (pass = the mutant survives the existing tests).', '',
+             '| mutant / check | what the edit does | verdict | suite | first violation reported / note |', '|---|---|---|---|---|']
+    n = k = 0
+    for key in sorted(allr):
+        mid = key.split('/')[0]
+        if mid not in by:
+            continue
+        r = allr[key]
+        m = by[mid]
+        note = r['first_violation'].replace('|', '\\|')[:160]
+        if r['verdict'] != 'KILLED' and m.get('note'):
+            note = m['note']
+        suite = 'pass' if 'suite:pass' in r['detail'] else ('FAIL' if 'suite:FAIL' in r['detail'] else '-')
+        lines.append('| %s | %s | %s | %s | %s |' % (key, m['what'], r['verdict'], suite, note))
+        n += 1
+        k += r['verdict'] == 'KILLED'
+    lines += ['', '%d runs, %d killed.' % (n, k), '']
+    open(os.path.join(ROOT, 'mutants', 'RESULTS.md'), 'w').write('\n'.join(lines))
+
+
 def main():
     only = None
     run_tests = '--tests' in sys.argv
@@ -65,6 +90,14 @@ def main():
         finally:
             sh(['git', '-C', '/repo', 'worktree', 'remove', '--force', repo])
             shutil.rmtree(w, ignore_errors=True)
+    # merge into mutants/results.json and regenerate mutants/RESULTS.md
+    rp = os.path.join(ROOT, 'mutants', 'results.json')
+    allr = json.load(open(rp)) if os.path.exists(rp) else {}
+    head = sh(['git', '-C', '/repo', 'rev-parse', '--short', 'HEAD']).stdout.strip()
+    for key, verdict, first in results:
+        allr[key] = {'verdict': verdict.split()[0], 'detail': verdict, 'first_violation': first, 'repo_head': head}
+    json.dump(allr, open(rp, 'w'), indent=1, sort_keys=True)
+    write_md(allr)
     missed = [r for r in results if r[1].startswith('MISSED')]
     print('\n%d runs, %d missed' % (len(results), len(missed)))
 
